@@ -145,6 +145,7 @@ type sched struct {
 	abortMsg      string
 	diverged      string
 	randHook      func() (int64, bool)
+	clockStep     time.Duration
 	mapOrderOn    bool
 
 	hbOn     bool
@@ -643,6 +644,7 @@ func (s *sched) runOnce(r *Run, body func(*Run), prefix []int) execResult {
 	s.abortMsg = ""
 	s.diverged = ""
 	s.randHook = nil
+	s.clockStep = 0
 	s.mapOrderOn = false
 	s.objH = map[uintptr]uint64{}
 	s.objX = 0
